@@ -134,7 +134,8 @@ AXES = ['child', 'descendant', 'descendant-or-self', 'self', 'parent', 'ancestor
 TESTS = ['a', 'b', '*', 'p:a', 'q:b', 'p:*', 'node()', 'text()', 'comment()', 'processing-instruction()', "processing-instruction('pi')"]
 PREDS = ['[1]', '[2]', '[last()]', '[position() < 3]', '[position() = last()]', '[@k]', "[@k='v']", '[b]', '[not(b)]', '[text()]', "[. = 'x']", '[a or b]',
          '[count(*) > 1]', '[last() - 1]', '[@*]', '[self::a]', '[..]', '[following-sibling::*]', '[preceding-sibling::a[1]]', "[name() = 'b']", '[* and @k]',
-         '[position() mod 2 = 1]', '[not(*)]', '[2.5]', '[last() div 2]', '[1.5]', '[last() div 3]', '[0.5 + 0.5]', "[string-length(.) > 0]", '[0]', '[1][1]', '[2][1]', '[last()][1]']
+         '[position() mod 2 = 1]', '[not(*)]', '[2.5]', '[last() div 2]', '[1.5]', '[last() div 3]', '[0.5 + 0.5]', "[string-length(.) > 0]", '[0]', '[1][1]', '[2][1]', '[last()][1]',
+         '[true()][true()][1]', '[*][true()][last()]', '[true()][1][true()][1]', '[@k or *][true()][true()][2]', '[true()][true()][true()][1]']
 
 
 def gen_step(rng):
@@ -183,7 +184,8 @@ HAND = ['//@k/self::*', '//@*/ancestor-or-self::*', '//@k/descendant-or-self::*'
         '//text()/self::*', '//text()/ancestor-or-self::*', '//comment()/self::*', '//text()/following::node()', '//text()/preceding::node()',
         '//b', '//b[1]', '(//b)[1]', '//a//b', '//*[@k]/..', 'descendant::*[2]', 'ancestor::*[1]', 'preceding::*[1]', 'following::*[1]', 'preceding-sibling::*[1]',
         '//text()', '//comment()', '//processing-instruction()', '/*', '/', '//@*', '//@k/..', '..//b', '../..', 'self::node()', '//node()', '//*[last()]',
-        'ancestor-or-self::*[last()]', '//b/preceding::node()', '//b/following::node()[1]', '//a/following-sibling::node()[2]', '//b[2]/preceding-sibling::node()',
+        'ancestor-or-self::*[last()]', 'ancestor::*[true()][true()][1]', 'ancestor-or-self::node()[true()][true()][true()][1]', '//*/preceding::*[true()][true()][1]',
+        '//*/preceding-sibling::node()[true()][true()][1]', '//*/ancestor::*[true()][true()][last()]', '//text()/ancestor::*[*][true()][1]', '//b/preceding::node()', '//b/following::node()[1]', '//a/following-sibling::node()[2]', '//b[2]/preceding-sibling::node()',
         '//*[not(@*)]', '//a | //b', '(//a | //b)[2]', '//*/*[1]', '//*[position() = 2]', '/descendant::b[1]', '/descendant-or-self::node()/b[1]', '//b/ancestor::*',
         "//*[@k='v'][1]", '//p:a', '//p:*', '//*[self::p:a or self::a]', './/b[1]//a', '//a[b][1]', '//a[1][b]', '//b[.//a]', '/a/b/..', '//@k[1]', '//attribute::*[2]',
         '//comment()/following-sibling::node()', '//text()[1]', '//text()[last()]', '//*[text()]', 'preceding::text()', 'following::comment()']
@@ -250,6 +252,16 @@ def _lxml_key(x, ranks, doc):
     if isinstance(x, tuple):
         return 'ns'
     return ranks.get(id(x))
+
+
+def _raw_key(x):
+    """Identity of a result node in terms of the caller's ElementTree objects."""
+    if isinstance(x, DocumentNode):
+        return ('document', 0, None)
+    if hasattr(x, 'elem'):
+        return (type(x).__name__, id(x.elem), None)
+    parent = getattr(x, 'parent', None)
+    return (type(x).__name__, id(getattr(parent, 'elem', None)), (getattr(x, 'name', None), x.position))
 
 
 def _select_ep(version, expr, rn, item):
@@ -341,6 +353,22 @@ def path_differential(tier, seed):
                 k3 = f'crash {type(e).__name__}'
             if k3 != k1 and 'namespace::' not in expr:
                 bad(f'the result differs between an xml.etree tree and the same lxml tree ({fam_key})', **w, etree=repr(k1)[:80], lxml=repr(k3)[:80])
+            # the same selection through the public call form: the caller passes the ElementTree objects, not nodes of a prebuilt tree
+            raw_item = None if item is rn else getattr(item, 'elem', None)
+            if (item is rn or raw_item is not None) and not isinstance(k1, str) and 'namespace::' not in expr:
+                try:
+                    tok = PARSERS['2.0'](namespaces=NSMAP).parse(expr)
+                    got_api = list(tok.select(XPathContext(root=et_doc, item=raw_item, namespaces=NSMAP)))
+                    ka = [_raw_key(x) for x in got_api]
+                except ElementPathError as e:
+                    ka = f'error {e.code}'
+                except Exception as e:      # noqa
+                    ka = f'crash {type(e).__name__}: {e}'[:80]
+                kn = [_raw_key(x) for x in got1]
+                if ka != kn:
+                    bad(f'selecting from a caller-supplied ElementTree context item differs from selecting from its node ({fam_key})', **w,
+                        from_node=repr([k[0] for k in kn])[:80], from_api=repr(ka if isinstance(ka, str) else [k[0] for k in ka])[:80],
+                        item_kind=type(item).__name__)
             # later parser versions agree with 1.0
             for version in ('2.0', '3.0', '3.1'):
                 try:
@@ -395,12 +423,51 @@ def path_differential(tier, seed):
             k1c = [x for x in k1 if x != 0] if isinstance(k1, list) else k1
             if k1c != k2 and isinstance(k2, list):
                 bad(f'XPath 1.0 differs from libxml2 on a document with prolog/epilog nodes ({_family(expr)})', **w, elementpath=repr(k1)[:80], libxml2=repr(k2)[:80])
+    # wildcard and braced name tests (2.0+) against the equivalent local-name()/namespace-uri() predicates
+    el2 = lambda n_, kids=(), attrs=(): ('e', n_, attrs, (), None, None, tuple(kids))     # noqa
+    wtrees = trees[:: (4 if tier == 'quick' else 1)] + [
+        el2('r', [el2('b', attrs=(('id', '1'), ('{urn:x}uid', '2'), ('{urn:x}id', '3'))), el2('{urn:x}ab'), el2('{urn:y}tab', [el2('{urn:x}b'), el2('{urn:y}bb')]),
+                  el2('{urn:x}b', [el2('ab', attrs=(('{urn:y}kid', 'v'), ('{urn:y}k', 'w'), ('k', 'x')))]), el2('{urn:xx}a'), el2('{urn:x}a')])]
+    equivalences = []
+    for loc in ('a', 'b', 'ab', 'k', 'id', 'uid'):
+        equivalences.append((f'//*:{loc}', f"//*[local-name() = '{loc}']", '2.0'))
+        equivalences.append((f'//@*:{loc}', f"//@*[local-name() = '{loc}']", '2.0'))
+        equivalences.append((f'//*/child::*:{loc}', f"//*/*[local-name() = '{loc}']", '2.0'))
+        for pfx, uri in NSMAP.items():
+            equivalences.append((f'//{pfx}:{loc}', f"//*[local-name() = '{loc}' and namespace-uri() = '{uri}']", '2.0'))
+            equivalences.append((f'//@{pfx}:{loc}', f"//@*[local-name() = '{loc}' and namespace-uri() = '{uri}']", '2.0'))
+            equivalences.append((f'//Q{{{uri}}}{loc}', f"//*[local-name() = '{loc}' and namespace-uri() = '{uri}']", '3.0'))
+            equivalences.append((f'//@Q{{{uri}}}{loc}', f"//@*[local-name() = '{loc}' and namespace-uri() = '{uri}']", '3.0'))
+        equivalences.append((f'//{loc}', f"//*[local-name() = '{loc}' and namespace-uri() = '']", '2.0'))
+        equivalences.append((f'//@{loc}', f"//@*[local-name() = '{loc}' and namespace-uri() = '']", '2.0'))
+    for pfx, uri in NSMAP.items():
+        equivalences.append((f'//{pfx}:*', f"//*[namespace-uri() = '{uri}']", '2.0'))
+        equivalences.append((f'//@{pfx}:*', f"//@*[namespace-uri() = '{uri}']", '2.0'))
+        equivalences.append((f'//Q{{{uri}}}*', f"//*[namespace-uri() = '{uri}']", '3.0'))
+    for t in wtrees:
+        rn = get_node_tree(ET.ElementTree(T.realise(t, 'et')), namespaces=NSMAP)
+        for lhs, rhs, since in equivalences:
+            for version in ('2.0', '3.0', '3.1'):
+                if version < since:
+                    continue
+                n += 1
+                try:
+                    a, b = _select_ep(version, lhs, rn, None), _select_ep(version, rhs, rn, None)
+                except ElementPathError as e:
+                    bad('a wildcard or braced name test raises', expr=lhs, version=version, err=str(e)[:100], tree=repr(t)[:200])
+                    continue
+                if [id(x) for x in a] != [id(x) for x in b]:
+                    kind = 'attribute' if '@' in lhs else 'element'
+                    form = '*:local' if '*:' in lhs else ('prefix:*' if ':*' in lhs else ('Q{uri}' if 'Q{' in lhs else 'QName'))
+                    bad(f'a name test ({form}, {kind}) does not select the nodes with that expanded name', expr=lhs, equivalent=rhs, version=version,
+                        got=[getattr(x, 'name', None) for x in a][:8], expected=[getattr(x, 'name', None) for x in b][:8], tree=repr(t)[:200])
     fails = [{'key': k, 'items': it[:4], 'count': len(it), 'what': f'{k}: e.g. {it[0]}'} for k, it in fam.items()]
     return {'evaluations': n, 'distinct': n, 'exhaustive': False,
             'scope': f'{len(trees)} trees (all shapes up to {5 if tier == "quick" else 6} nodes with seeded decorations, 2 hand-written trees with nested same-named and '
             f'namespaced elements) x {len(HAND)} hand-written + up to {per_tree} generated paths each (12 axes, name/kind tests, 28 predicates, /, //, parenthesised and '
             'union sub-paths) x a sampled context node: XPath 1.0 against libxml2 on the same abstract tree, xml.etree against lxml, 2.0/3.0/3.1 against 1.0, '
-            'document order and uniqueness by oracle rank', 'failures': fails}
+            'document order and uniqueness by oracle rank; the public call form with the caller\'s ElementTree object as context item against the node form; '
+            'wildcard, prefixed and braced name tests against local-name()/namespace-uri() predicates (2.0-3.1)', 'failures': fails}
 
 
 def _family(expr):
